@@ -63,12 +63,59 @@ def scan():
     return mats, sup
 
 
+def loop_shape(f2):
+    """1 iff the function walks `product(arange(n1), arange(n2), arange(n3))` (the three sizes in the order they are unpacked) and, for every
+    offset, every unit-cell molecule, translated by `[q, r, s] @ self.unit_cell.lattice` — the loop modelled by `C13.scLoop`"""
+    if f2 is None:
+        return 0
+    sizes, ar = None, {}
+    for st in ast.walk(f2):
+        if isinstance(st, ast.Assign) and len(st.targets) == 1:
+            t, v = st.targets[0], st.value
+            if isinstance(t, ast.Tuple) and len(t.elts) == 3 and all(isinstance(e, ast.Name) for e in t.elts) and isinstance(v, ast.Name) \
+                    and v.id in [a.arg for a in f2.args.args]:
+                sizes = [e.id for e in t.elts]
+            if isinstance(t, ast.Name) and isinstance(v, ast.Call) and isinstance(v.func, ast.Attribute) and v.func.attr == "arange" \
+                    and len(v.args) == 1 and not v.keywords and isinstance(v.args[0], ast.Name):
+                ar[t.id] = v.args[0].id
+    if sizes is None:
+        return 0
+    for st in ast.walk(f2):
+        if not (isinstance(st, ast.For) and isinstance(st.target, ast.Tuple) and len(st.target.elts) == 3 and isinstance(st.iter, ast.Call)):
+            continue
+        fn = st.iter.func
+        if (fn.attr if isinstance(fn, ast.Attribute) else getattr(fn, "id", "")) != "product" or st.iter.keywords:
+            continue
+        if [ar.get(getattr(a, "id", None)) for a in st.iter.args] != sizes:
+            continue
+        idx = [e.id for e in st.target.elts if isinstance(e, ast.Name)]
+        inner = [n for n in st.body if isinstance(n, ast.For)]
+        if len(idx) != 3 or len(st.body) != 1 or len(inner) != 1 or st.orelse or inner[0].orelse:
+            continue
+        seg = ast.unparse(inner[0])
+        if ast.unparse(inner[0].iter) == "self.unit_cell_molecules()" and isinstance(inner[0].target, ast.Name) \
+                and f"{inner[0].target.id}.translated(np.asarray([{idx[0]}, {idx[1]}, {idx[2]}]) @ self.unit_cell.lattice)" in seg \
+                and len(inner[0].body) == 1 and not any(isinstance(n, (ast.If, ast.Continue, ast.Break)) for n in ast.walk(st)):
+            return 1
+    return 0
+
+
+def scan_loops():
+    tree = ast.parse((SRC / "crystal" / "crystal.py").read_text())
+    cls = next(n for n in tree.body if isinstance(n, ast.ClassDef) and n.name == "Crystal")
+    out = []
+    for name in ("as_P1_supercell", "to_translational_symmetry"):
+        out.append(loop_shape(next((n for n in cls.body if isinstance(n, ast.FunctionDef) and n.name == name), None)))
+    return out
+
+
 def lean_mat(m):
     return "[" + ", ".join("[" + ", ".join(f"({x.numerator} : Rat) / {x.denominator}" for x in r) + "]" for r in m) + "]"
 
 
 def generate():
     mats, sup = scan()
+    loops = scan_loops()
     L = ["/- GENERATED by harness/gen/trigonal.py from chmpy/crystal/crystal.py — do not edit -/",
          "namespace ChmpyVerif.Gen", "",
          "/-- `T` used by `choose_trigonal_lattice` when the crystal is currently in the R setting (R → H) -/",
@@ -77,6 +124,8 @@ def generate():
          f"def tFromH : List (List Rat) := {lean_mat(mats['from_H'])}",
          "/-- 1 iff the supercell constructors form the new cell as `diag(n) · direct` (scaled lattice vectors) -/",
          f"def supercellFromVectors : List Nat := [{sup['as_P1_supercell']}, {sup['to_translational_symmetry']}]",
+         "/-- 1 iff the supercell constructors walk `product(arange n₁, arange n₂, arange n₃)` × unit-cell molecules, each translated by `[q,r,s] · lattice` -/",
+         f"def supercellLoopShape : List Nat := [{loops[0]}, {loops[1]}]",
          "", "end ChmpyVerif.Gen", ""]
     write_if_changed(LEAN / "ChmpyVerif" / "Gen" / "Trigonal.lean", "\n".join(L))
     return mats, sup
